@@ -183,7 +183,7 @@ Finalize(c, issued) ==
     /\ bad' = Chk("C01_CsrNames", c.names = CfgIds \/
                       (SeqToSet(c.names) = SeqToSet(CfgIds) /\ Len(c.names) = Len(CfgIds)))
          \cup Chk("C01_CsrSubject", SubjectOK(c))
-         \cup Chk("C01_CsrDigest", c.digest = cfg.digest)
+         \cup Chk("C01_CsrDigest", c.digest = IF c.eddsa THEN "none" ELSE cfg.digest)   \* EdDSA signs without a digest
          \cup Chk("C01_CsrSelfSig", c.verify_ok)
     /\ csr' = c /\ keyUsed' = c.spki
     /\ served' = issued
@@ -336,10 +336,10 @@ MCWriteKeyEarly == /\ phase = "running" /\ Pc = "writekey_early"
                    /\ FileWritten("pk", K(NewKey)) /\ SetPc("finalize")
 CurKey == IF "pk" \in wrote \/ (cfg.kp_reuse /\ keyFile.exists /\ keyFile.ok) THEN keyFile.spki ELSE NewKey
 MCFinalize == /\ phase = "running" /\ Pc = "finalize"
-              /\ \/ /\ Finalize([spki |-> CurKey, names |-> CfgIds, subject |-> <<>>, digest |-> "sha256",
+              /\ \/ /\ Finalize([spki |-> CurKey, names |-> CfgIds, subject |-> <<>>, digest |-> "sha256", eddsa |-> FALSE,
                                  verify_ok |-> TRUE], NewCrt)
                     /\ SetPc("download")
-                 \/ /\ Finalize([spki |-> CurKey, names |-> CfgIds, subject |-> <<>>, digest |-> "sha256",
+                 \/ /\ Finalize([spki |-> CurKey, names |-> CfgIds, subject |-> <<>>, digest |-> "sha256", eddsa |-> FALSE,
                                  verify_ok |-> TRUE], "none")
                     /\ SetPc("fail")
 MCDownload == /\ phase = "running" /\ Pc = "download"
